@@ -3,14 +3,23 @@
    Proved here for ALL inputs: compute_1D_quad_weights is compute_weights on the moment lists of its dimension; the early exits
    (one point; three points without boundary points; the assert `boundary or num_points > 3`) coincide with Model/UQ.wtrap.
    Proved for two grid points (symbolic points and moments): the moment loop + clipping = wtrap with boundary points.
-   NOT proved for all n (see the manifest note): the accumulation loop writes two cells per iteration (weights[i], weights[i+1]), so
-   Proofs/PyNumFacts.py_for_pointwise does not apply; the general statement is compared per case on every run instead
-   (extracted generated function vs extracted hand model, exact rationals; harness/vp/props/_c15_gen.py). *)
+   PHASE 4: gen_compute_weights_eq - the generated moment loop + clipping loop + renormalisation IS Model/UQ.wtrap for ALL n >= 2
+   (loop lemmas of Proofs/GenUQGridLoop.v: the two-cells-per-iteration accumulation, the clipping loop with its assert, the scaling of
+   the inner cells range(1, n-1)); precondition exactly where the Python divides by zero (two coinciding finite neighbours);
+   gen_compute_weights_mod_eq - the modified-basis branch (through Proofs/GenGridEq.v of property C09) on strictly increasing grids. *)
 From Coq Require Import ZArith List Bool Lia QArith Qcanon Arith.
 From SG Require Import Base.QcUtil Base.PyLib Base.PyNum Base.PyNumMath Base.PyNumUQ Model.Trap Model.UQ Proofs.TrapBasics
-  Proofs.PyNumFacts Proofs.GenGridEq Gen.UQGridGen.
+  Proofs.PyNumFacts Proofs.UQ Proofs.GenGridEq Proofs.GenUQGridLoop.
+From SG Require Gen.GridGen.
+From SG Require Import Gen.UQGridGen.
 Import ListNotations.
 Open Scope Z_scope.
+Local Arguments Z.add : simpl never.
+Local Arguments Z.sub : simpl never.
+Local Arguments Z.of_nat : simpl never.
+Local Arguments Z.to_nat : simpl never.
+Local Arguments Z.eqb : simpl never.
+Local Arguments Z.gtb : simpl never.
 
 Theorem gen_quad_is_compute_weights bd mb m0 m1 x a b d lv :
   GlobalTrapezoidalGridWeighted_compute_1D_quad_weights bd mb m0 m1 x a b d lv
@@ -36,3 +45,184 @@ Theorem gen_no_points a b m0 m1 :
   GlobalTrapezoidalGridWeighted_compute_weights [] a b m0 m1 false false = None /\
   GlobalTrapezoidalGridWeighted_compute_weights [] a b m0 m1 true false = Some [].
 Proof. split; reflexivity. Qed.
+
+(* ================================================================ all n *)
+(* the extended-real grid point a rational stands for in the reading of Base/PyNumUQ.v *)
+Definition unemb (q : Qc) : ext := if py_isinf q then (if Qc_leb 0 q then PosInf else NegInf) else Fin q.
+Lemma unemb_isinf q : ext_isinf (unemb q) = py_isinf q.
+Proof. unfold unemb. destruct (py_isinf q); [destruct (Qc_leb 0 q)|]; reflexivity. Qed.
+Lemma unemb_val q : py_isinf q = false -> ext_val (unemb q) = q.
+Proof. intro H. unfold unemb. rewrite H. reflexivity. Qed.
+
+Definition ival_at (x m0s m1s : list Qc) (k : nat) : ival :=
+  {| i_x1 := unemb (nth k x 0%Qc); i_x2 := unemb (nth (S k) x 0%Qc); i_m0 := nth k m0s 0%Qc; i_m1 := nth k m1s 0%Qc |}.
+Definition ivs_of (x m0s m1s : list Qc) : list ival := map (ival_at x m0s m1s) (seq 0 (length x - 1)).
+
+Theorem gen_compute_weights_eq x a b m0s m1s bd :
+  (2 <= length x)%nat -> length m0s = (length x - 1)%nat -> length m1s = (length x - 1)%nat ->
+  (forall k, (S k < length x)%nat -> py_isinf (nth k x 0%Qc) = false -> py_isinf (nth (S k) x 0%Qc) = false ->
+             nth (S k) x 0%Qc <> nth k x 0%Qc) ->
+  GlobalTrapezoidalGridWeighted_compute_weights x a b m0s m1s bd false = wtrap bd false a b (ivs_of x m0s m1s).
+Proof.
+  intros Hn L0 L1 Hd.
+  unfold GlobalTrapezoidalGridWeighted_compute_weights, wtrap.
+  assert (Livs : length (ivs_of x m0s m1s) = (length x - 1)%nat) by (unfold ivs_of; rewrite map_length, seq_length; reflexivity).
+  rewrite Livs. replace (S (length x - 1)) with (length x) by lia.
+  rewrite py_len_nat. set (n := length x) in *.
+  match goal with |- context [py_for (py_range (Z.of_nat n - 1)) ?B _] => set (B1 := B) end.
+  match goal with |- context [py_for (py_range (Z.of_nat n)) ?B _] => set (B2 := B) end.
+  set (W1 := fun k => w1_of (ival_at x m0s m1s k)). set (W2 := fun k => w2_of (ival_at x m0s m1s k)).
+  assert (F1 : forall k w, In k (seq 0 (n - 1)) -> length w = n ->
+               B1 (Z.of_nat k) w = Nxt (step2 W1 W2 w k) /\ length (step2 W1 W2 w k) = n).
+  { intros k w Hk Hw. apply in_seq in Hk. split; [|rewrite step2_length; exact Hw]. unfold B1.
+    rewrite (py_getitem_at x _ k 0%Qc) by (try reflexivity; fold n; lia). cbn [bindE].
+    rewrite (py_getitem_at x _ (S k) 0%Qc) by (fold n; lia). cbn [bindE].
+    rewrite (py_getitem_at m0s _ k 0%Qc) by (try reflexivity; lia). cbn [bindE].
+    rewrite (py_getitem_at m1s _ k 0%Qc) by (try reflexivity; lia). cbn [bindE].
+    assert (E2 : (if py_isinf (nth k x 0%Qc) then Some (nth k m0s 0%Qc)
+                  else bindO (if py_isinf (nth (S k) x 0%Qc) then Some (py_Z2Qc 0)
+                              else bindO (py_fdiv (nth k m1s 0 - nth k m0s 0 * nth k x 0)%Qc (nth (S k) x 0 - nth k x 0)%Qc) (fun t => Some t))
+                             (fun t => Some t)) = Some (W2 k)).
+    { unfold W2, w2_of, ival_at. cbn [i_x1 i_x2 i_m0 i_m1]. rewrite !unemb_isinf.
+      destruct (py_isinf (nth k x 0%Qc)) eqn:I1; [reflexivity|].
+      destruct (py_isinf (nth (S k) x 0%Qc)) eqn:I2; [reflexivity|].
+      rewrite py_fdiv_some by (apply sub_neq0; apply Hd; [lia | exact I1 | exact I2]).
+      cbn [bindO]. rewrite !unemb_val by assumption. reflexivity. }
+    rewrite E2. cbn [bindE].
+    rewrite (py_getitem_at w _ k 0%Qc) by (try reflexivity; lia). cbn [bindE].
+    rewrite (py_setitem_at w _ k) by (try reflexivity; lia). cbn [bindE].
+    rewrite (py_getitem_at _ _ (S k) 0%Qc) by (rewrite ?list_set_length; lia). cbn [bindE].
+    rewrite (py_setitem_at _ _ (S k)) by (rewrite ?list_set_length; lia). cbn [bindE].
+    unfold step2, add_at, W1, w1_of. reflexivity. }
+  assert (F2 : forall pre v post, B2 (Z.of_nat (length pre)) (pre ++ v :: post)
+                 = match clip v with Some c => Nxt (pre ++ c :: post) | None => Fail end).
+  { intros pre v post. unfold B2. rewrite getitem_mid. cbn [bindE]. unfold clip. change (py_Qc 0 1) with 0%Qc.
+    destruct (Qc_leb 0 v); cbn [negb bindF]; [reflexivity|].
+    rewrite ?getitem_mid. cbn [bindE]. rewrite clip_tol_gen. unfold py_assert.
+    destruct (Qc_ltb (- v) clip_tol); [|reflexivity]. rewrite setitem_mid. reflexivity. }
+  (* the accumulated weights are the hand model's *)
+  assert (Eacc : fold_left (step2 W1 W2) (seq 0 (n - 1)) (repeat 0%Qc n) = accum 0 (ivs_of x m0s m1s)).
+  { apply list_eq_nth.
+    - rewrite fold_step2_length, repeat_length, accum_length, Livs. lia.
+    - intros j Hj. rewrite fold_step2_length, repeat_length in Hj.
+      rewrite accum2_nth by (rewrite repeat_length; lia). rewrite nth_repeat_0.
+      rewrite accum_nth by (rewrite Livs; lia). rewrite Livs.
+      assert (Nth : forall i, (i < n - 1)%nat -> nth i (ivs_of x m0s m1s) iv0 = ival_at x m0s m1s i).
+      { intros i Hi. unfold ivs_of. rewrite (nth_indep _ iv0 (ival_at x m0s m1s 0)) by (rewrite map_length, seq_length; exact Hi).
+        rewrite map_nth, seq_nth by exact Hi. reflexivity. }
+      destruct (Nat.ltb_spec j (n - 1)) as [Hlt|Hge].
+      + rewrite (Nth j Hlt). destruct j as [|j]; [cbn; unfold W1; ring|].
+        replace ((0 <? S j) && (S j <=? n - 1))%nat with true by (symmetry; apply andb_true_iff; split; [apply Nat.ltb_lt | apply Nat.leb_le]; lia).
+        cbn [Nat.eqb]. replace (S j - 1)%nat with j by lia. rewrite (Nth j) by lia. unfold W1, W2. ring.
+      + assert (j = n - 1)%nat by lia. subst j.
+        replace ((0 <? n - 1) && (n - 1 <=? n - 1))%nat with true by (symmetry; apply andb_true_iff; split; [apply Nat.ltb_lt | apply Nat.leb_le]; lia).
+        replace (n - 1 =? 0)%nat with false by (symmetry; apply Nat.eqb_neq; lia). rewrite (Nth (n - 1 - 1)%nat) by lia. unfold W2. ring. }
+  (* early exits *)
+  destruct (Nat.eqb_spec n 1) as [E1|_]; [lia|].
+  replace (Z.of_nat n =? 1) with false by (symmetry; apply Z.eqb_neq; lia).
+  replace (Z.of_nat n =? 3) with (n =? 3)%nat by (destruct (Nat.eqb_spec n 3), (Z.eqb_spec (Z.of_nat n) 3); try reflexivity; lia).
+  destruct (negb bd && (n =? 3)%nat) eqn:E3; [reflexivity|]. cbn [bindF].
+  replace (Z.of_nat n >? 3) with (3 <? n)%nat by (rewrite Z.gtb_ltb; destruct (Nat.ltb_spec 3 n), (Z.ltb_spec 3 (Z.of_nat n)); try reflexivity; lia).
+  destruct (bd || (3 <? n)%nat) eqn:EA; cbn [py_assert negb]; [|reflexivity].
+  rewrite np_zeros_nat. cbn [bindE].
+  replace (Z.of_nat n - 1) with (Z.of_nat (n - 1)) by lia. rewrite py_range_seq0.
+  destruct (py_for_bounded_fold n (step2 W1 W2) (seq 0 (n - 1)) B1 F1 (repeat 0%Qc n) (repeat_length _ _)) as [EL1 _].
+  rewrite EL1, Eacc. cbn [bindF].
+  rewrite py_range_seq0.
+  set (w1 := accum 0 (ivs_of x m0s m1s)). assert (Lw1 : length w1 = n) by (unfold w1; rewrite accum_length, Livs; lia).
+  pose proof (py_for_clip B2 F2 w1 []) as EL2. cbn [length app] in EL2. rewrite Lw1 in EL2. rewrite EL2.
+  unfold wtrap_general. fold w1. destruct (opt_list (map clip w1)) as [c|] eqn:Ec; [|reflexivity]. cbn [bindF app].
+  destruct bd; cbn [negb]; [reflexivity|].
+  cbn [orb] in EA. apply Nat.ltb_lt in EA.
+  assert (Lc : length c = n) by (rewrite (opt_list_length _ _ Ec), map_length; exact Lw1).
+  rewrite (strip_decompose c 0%Qc) at 1 by lia.
+  set (inner := strip c). assert (Li : length inner = (n - 2)%nat) by (unfold inner; rewrite strip_length; lia).
+  change (py_Qc 0 1) with 0%Qc. change (py_Qc 1 1) with 1%Qc.
+  rewrite (py_setitem_at _ 0 0%nat) by (try reflexivity; cbn [length]; lia). cbn [bindE list_set].
+  set (wA := 0%Qc :: inner ++ [nth (length c - 1) c 0%Qc]).
+  assert (LA : length wA = n) by (unfold wA; cbn [length]; rewrite app_length, Li; cbn [length]; lia).
+  rewrite py_len_nat, LA.
+  replace (Z.of_nat n - 1) with (Z.of_nat (length (0%Qc :: inner))) by (cbn [length]; rewrite Li; lia).
+  change wA with ((0%Qc :: inner) ++ nth (length c - 1) c 0%Qc :: []). rewrite setitem_mid. cbn [bindE].
+  set (wB := (0%Qc :: inner) ++ [0%Qc]).
+  assert (LB : length wB = n) by (unfold wB; rewrite app_length; cbn [length]; rewrite Li; lia).
+  rewrite py_slice_1_m1. fold (strip wB). unfold wB at 1. cbn [app]. rewrite strip_zero_ends.
+  rewrite py_fsum_sumQ. unfold renormalise. fold inner. unfold py_fdiv.
+  destruct (Qc_eqb (sumQ inner) 0); [reflexivity|]. cbn [bindE].
+  rewrite py_len_nat, LB.
+  replace (Z.of_nat n - 1) with (Z.of_nat (n - 1)) by lia. change 1 with (Z.of_nat 1) at 1. rewrite py_range2_seq.
+  replace (n - 1 - 1)%nat with (length inner) by lia.
+  match goal with |- context [py_for _ ?B _] => set (B3 := B) end.
+  assert (F3 : forall pre v post, B3 (Z.of_nat (length pre)) (pre ++ v :: post) = Nxt (pre ++ (1 / sumQ inner * v)%Qc :: post)).
+  { intros pre v post. unfold B3. rewrite getitem_mid. cbn [bindE]. rewrite setitem_mid. reflexivity. }
+  pose proof (py_for_scale_mid (1 / sumQ inner)%Qc B3 F3 inner [0%Qc] [0%Qc]) as EL3. cbn [length] in EL3.
+  unfold wB. cbn [app] in *. rewrite EL3. reflexivity.
+Qed.
+
+(* the copy of GlobalTrapezoidalGrid.compute_weights inside Gen/UQGridGen.v is the function of Gen/GridGen.v (property C09) *)
+Lemma trap_same x a b mb :
+  UQGridGen.GlobalTrapezoidalGrid_compute_weights x a b mb = GridGen.GlobalTrapezoidalGrid_compute_weights x a b mb.
+Proof. reflexivity. Qed.
+
+Lemma map_nth_seq (w : list Qc) (g : Qc -> Qc) : map (fun k => g (nth k w 0%Qc)) (seq 0 (length w)) = map g w.
+Proof.
+  apply list_eq_nth; [rewrite !map_length, seq_length; reflexivity|].
+  intros j Hj. rewrite map_length, seq_length in Hj.
+  rewrite (nth_indep _ 0%Qc ((fun k => g (nth k w 0%Qc)) 0%nat)) by (rewrite map_length, seq_length; exact Hj).
+  rewrite (map_nth (fun k => g (nth k w 0%Qc))), seq_nth by exact Hj.
+  rewrite (nth_indep (map g w) 0%Qc (g 0%Qc)) by (rewrite map_length; exact Hj). rewrite (map_nth g). reflexivity.
+Qed.
+
+Lemma isclose_one_gen s : py_isclose s (py_Qc 1 1) = isclose_one s.
+Proof.
+  unfold py_isclose, isclose_one. change (py_Qc 1 1) with 1%Qc.
+  replace (Qc_abs 1) with 1%Qc by (apply Qc_is_canon; vm_compute; reflexivity). reflexivity.
+Qed.
+
+Lemma pts_of_map (f : nat -> ival) (m : nat) :
+  pts_of (map f (seq 0 (S m))) = ext_val (i_x1 (f 0%nat)) :: map (fun k => ext_val (i_x2 (f k))) (seq 0 (S m)).
+Proof. cbn [seq map pts_of]. rewrite map_map. reflexivity. Qed.
+
+Lemma pts_of_ivs_of x m0s m1s : (2 <= length x)%nat -> (forall q, In q x -> py_isinf q = false) -> pts_of (ivs_of x m0s m1s) = x.
+Proof.
+  intros Hn Hf. unfold ivs_of. destruct (length x - 1)%nat as [|m] eqn:Em; [lia|]. rewrite pts_of_map. cbn [ival_at i_x1 i_x2].
+  apply list_eq_nth.
+  - cbn [length]. rewrite map_length, seq_length. lia.
+  - intros j Hj. cbn [length] in Hj. rewrite map_length, seq_length in Hj.
+    destruct j as [|j].
+    + cbn [nth]. apply unemb_val. apply Hf. apply nth_In. lia.
+    + change (nth (S j) (ext_val (unemb (nth 0 x 0%Qc)) :: map (fun k => ext_val (unemb (nth (S k) x 0%Qc))) (seq 0 (S m))) 0%Qc)
+        with (nth j (map (fun k => ext_val (unemb (nth (S k) x 0%Qc))) (seq 0 (S m))) 0%Qc).
+      rewrite (nth_indep _ 0%Qc ((fun k => ext_val (unemb (nth (S k) x 0%Qc))) 0%nat)) by (rewrite map_length, seq_length; lia).
+      rewrite (map_nth (fun k => ext_val (unemb (nth (S k) x 0%Qc)))), seq_nth by lia. cbn [Nat.add].
+      apply unemb_val. apply Hf. apply nth_In. lia.
+Qed.
+
+(* the modified-basis branch (uniform distribution): the weights of GlobalTrapezoidalGrid.compute_weights divided by b - a *)
+Theorem gen_compute_weights_mod_eq x a b m0s m1s bd :
+  (2 <= length x)%nat -> strictly_increasing x -> (forall q, In q x -> py_isinf q = false) -> a <> b ->
+  UQGridGen.GlobalTrapezoidalGridWeighted_compute_weights x a b m0s m1s bd true = wtrap bd true a b (ivs_of x m0s m1s).
+Proof.
+  intros Hn Hs Hf Hab.
+  unfold UQGridGen.GlobalTrapezoidalGridWeighted_compute_weights, wtrap.
+  assert (Livs : length (ivs_of x m0s m1s) = (length x - 1)%nat) by (unfold ivs_of; rewrite map_length, seq_length; reflexivity).
+  rewrite Livs. replace (S (length x - 1)) with (length x) by lia. rewrite pts_of_ivs_of by assumption.
+  rewrite py_len_nat. set (n := length x) in *.
+  destruct (Nat.eqb_spec n 1) as [E1|_]; [lia|].
+  replace (Z.of_nat n =? 1) with false by (symmetry; apply Z.eqb_neq; lia).
+  replace (Z.of_nat n =? 3) with (n =? 3)%nat by (destruct (Nat.eqb_spec n 3), (Z.eqb_spec (Z.of_nat n) 3); try reflexivity; lia).
+  destruct (negb bd && (n =? 3)%nat) eqn:E3; [reflexivity|]. cbn [bindF].
+  replace (Z.of_nat n >? 3) with (3 <? n)%nat by (rewrite Z.gtb_ltb; destruct (Nat.ltb_spec 3 n), (Z.ltb_spec 3 (Z.of_nat n)); try reflexivity; lia).
+  destruct (bd || (3 <? n)%nat) eqn:EA; cbn [py_assert negb]; [|reflexivity].
+  rewrite trap_same, gen_compute_weights_increasing by (try assumption; fold n; lia).
+  unfold wtrap_modified. destruct (compute_weights x a b true) as [w|]; [|reflexivity]. cbn [bindE bindF].
+  rewrite np_zeros_len. cbn [bindE]. rewrite py_len_nat.
+  rewrite (py_for_pointwise 0%Qc (fun k _ => (nth k w 0 / (b - a))%Qc)).
+  - cbn [bindF]. rewrite map_nth_seq with (g := fun t => (t / (b - a))%Qc).
+    rewrite py_fsum_sumQ, isclose_one_gen. unfold py_assert. destruct (isclose_one _); reflexivity.
+  - intros k v Hk Hv.
+    rewrite (py_getitem_at w _ k 0%Qc) by (try reflexivity; lia). cbn [bindE].
+    rewrite py_fdiv_some by (apply sub_neq0; intro E; apply Hab; symmetry; exact E). cbn [bindE].
+    rewrite (py_setitem_at v _ k) by (try reflexivity; lia). reflexivity.
+  - apply repeat_length.
+Qed.
